@@ -111,7 +111,7 @@ func (g *gp) coq() string {
 func (g *gp) isNop() bool {
 	return g.ID < 2 && g.Len == 0 && (g.Flags == 0 || g.Flags == uint64(com.FlagProxy))
 }
-func (g *gp) group() uint16 { return uint16(g.Flags >> 16) }
+func (g *gp) group() uint16   { return uint16(g.Flags >> 16) }
 func (g *gp) fragLen() uint16 { return uint16(g.Flags >> 48) }
 func (g *gp) desc() map[string]interface{} {
 	return map[string]interface{}{"id": g.ID, "job": g.Job, "dev": g.Dev, "flags": fmt.Sprintf("0x%X", g.Flags),
@@ -293,30 +293,7 @@ func run(c qcase) {
 		if ec != 0 {
 			anyErr++
 		}
-		var dm, df []dlv
-		for _, e := range w.Events[e0:] {
-			d := dlv{Sid: devNum(e.Sid), ID: e.ID, Job: e.Job, Dev: devNum(e.Device), Flags: uint64(e.Flags), Tags: e.Tags,
-				Len: len(e.Payload), Cid: cidOf(e.Payload)}
-			dm = append(dm, d)
-		}
-		fr := w.C03Frags()
-		sort.Slice(fr, func(a, b int) bool {
-			if x, y := devNum(fr[a].Sid), devNum(fr[b].Sid); x != y {
-				return x < y
-			}
-			if fr[a].Group != fr[b].Group {
-				return fr[a].Group < fr[b].Group
-			}
-			return fr[a].Index < fr[b].Index
-		})
-		for _, f := range fr {
-			if seen[f.P] {
-				continue
-			}
-			seen[f.P] = true
-			df = append(df, dlv{Sid: devNum(f.Sid), ID: f.P.ID, Job: f.P.Job, Dev: devNum(f.P.Device), Flags: uint64(f.P.Flags),
-				Tags: append([]uint32(nil), f.P.Tags...), Len: f.P.Chunk.Size(), Cid: cidOf(f.P.Payload())})
-		}
+		dm, df := collect(w, e0, seen)
 		mux = append(mux, dm...)
 		frags = append(frags, df...)
 		ds := make([]string, len(dm))
@@ -368,6 +345,40 @@ func run(c qcase) {
 		out.Note("observation (not a violation): a queue of only keep-alives (>= 2) produced a Multi container with Len 0; the peer rejects it with ErrInvalidPacketCount; the delivered sequence (empty) is as specified")
 	}
 
+	oracle(c, desc, mux, frags)
+}
+
+// collect returns the mux events since e0 and the packets newly stored in fragment tables.
+func collect(w *c2.C03World, e0 int, seen map[*com.Packet]bool) ([]dlv, []dlv) {
+	var dm, df []dlv
+	for _, e := range w.Events[e0:] {
+		d := dlv{Sid: devNum(e.Sid), ID: e.ID, Job: e.Job, Dev: devNum(e.Device), Flags: uint64(e.Flags), Tags: e.Tags,
+			Len: len(e.Payload), Cid: cidOf(e.Payload)}
+		dm = append(dm, d)
+	}
+	fr := w.C03Frags()
+	sort.Slice(fr, func(a, b int) bool {
+		if x, y := devNum(fr[a].Sid), devNum(fr[b].Sid); x != y {
+			return x < y
+		}
+		if fr[a].Group != fr[b].Group {
+			return fr[a].Group < fr[b].Group
+		}
+		return fr[a].Index < fr[b].Index
+	})
+	for _, f := range fr {
+		if seen[f.P] {
+			continue
+		}
+		seen[f.P] = true
+		df = append(df, dlv{Sid: devNum(f.Sid), ID: f.P.ID, Job: f.P.Job, Dev: devNum(f.P.Device), Flags: uint64(f.P.Flags),
+			Tags: append([]uint32(nil), f.P.Tags...), Len: f.P.Chunk.Size(), Cid: cidOf(f.P.Payload())})
+	}
+	return dm, df
+}
+
+// oracle evaluates the property itself on what the implementation delivered.
+func oracle(c qcase, desc map[string]interface{}, mux, frags []dlv) {
 	// ---- the oracle: the property on the implementation
 	// expected: the queued packets, device filled in, keep-alives removed; restricted to what
 	// the mux / fragment tables can show (ID >= MvRefresh).
@@ -476,6 +487,149 @@ func run(c qcase) {
 			}
 		}
 	}
+}
+
+// ---------------------------------------------------------------- the proxy's queue for one client
+
+const pcExtra = 2 // polls after the queue has drained: they may only yield keep-alives
+
+// runPC drives the real proxyClient.next (c2/proxy.go): the queue a Proxy holds for one of its
+// clients, polled by that client until nothing is pending plus pcExtra more polls; every
+// transmission goes over the wire (Marshal, Clear as writePacket does, Unmarshal) into the real
+// receive(s, nil, n) of the client's Session.
+func runPC(c qcase) {
+	desc := map[string]interface{}{"own": c.Own, "inter": c.Inter, "proxy_client_queue": true, "class": c.Class,
+		"frag": F, "packets": NP, "extra_polls": pcExtra}
+	qd := make([]interface{}, len(c.Q))
+	for i := range c.Q {
+		qd[i] = c.Q[i].desc()
+	}
+	desc["queue"] = qd
+	w := c2.C03NewWorld([]device.ID{devID(c.Own)})
+	pc := c2.C03NewPC(devID(c.Own))
+	for i := range c.Q {
+		if !pc.Push(c.Q[i].build()) {
+			panic("c03: queue full")
+		}
+	}
+	var (
+		obs        []string
+		mux, frags []dlv
+		seen       = map[*com.Packet]bool{}
+		panicked   = false
+		extra      = -1 // >= 0: number of extra polls still to do
+		polls      = 0
+	)
+	for iter := 0; ; iter++ {
+		if iter > 2*len(c.Q)+4+pcExtra {
+			desc["polls"] = polls
+			oracle(c, desc, mux, frags) // what was delivered so far: duplicates show up here
+			out.Fail("proxyClient.next() does not drain the queue (something stays pending)", "pc-no-progress", desc)
+			return
+		}
+		var n *com.Packet
+		func() {
+			defer func() {
+				if x := recover(); x != nil {
+					panicked = true
+					desc["panic"] = fmt.Sprint(x)
+				}
+			}()
+			n = pc.Next(c.Inter)
+		}()
+		if panicked {
+			out.Fail("proxyClient.next() panicked", "pc-next-panic", desc)
+			return
+		}
+		if n == nil {
+			break
+		}
+		polls++
+		var (
+			fl    = uint64(n.Flags)
+			multi = n.Flags&com.FlagMulti != 0
+			plen  = n.Chunk.Size()
+			size  = n.Size()
+			cid   = uint32(0)
+			tags  = append([]uint32(nil), n.Tags...)
+			id    = n.ID
+			job   = n.Job
+			dev   = devNum(n.Device)
+		)
+		if !multi {
+			cid = cidOf(n.Payload())
+		}
+		peek, qlen := optPeek(pc.Peek()), pc.QLen()
+		var (
+			buf bytes.Buffer
+			r   com.Packet
+		)
+		if err := n.Marshal(&buf); err != nil {
+			desc["marshal_error"] = err.Error()
+			out.Fail("Marshal of a transmission failed", "marshal", desc)
+			return
+		}
+		n.Clear() // writePacket clears what it has sent
+		if err := r.Unmarshal(&buf); err != nil {
+			desc["unmarshal_error"] = err.Error()
+			out.Fail("Unmarshal of a transmission failed", "unmarshal", desc)
+			return
+		}
+		e0 := len(w.Events)
+		var perr error
+		func() {
+			defer func() {
+				if x := recover(); x != nil {
+					panicked = true
+					desc["panic"] = fmt.Sprint(x)
+				}
+			}()
+			perr = w.C03ClientReceive(devID(c.Own), &r)
+		}()
+		if panicked {
+			out.Fail("the receiving client panicked", "pc-recv-panic", desc)
+			return
+		}
+		dm, df := collect(w, e0, seen)
+		mux = append(mux, dm...)
+		frags = append(frags, df...)
+		ds := make([]string, len(dm))
+		for i := range dm {
+			ds[i] = dm[i].coq()
+		}
+		fs := make([]string, len(df))
+		for i := range df {
+			fs[i] = df[i].coq()
+		}
+		obs = append(obs, fmt.Sprintf("ob %d %d %d %d %s %d %d %d %s %d %s %s %d", id, job, dev, fl, tagsCoq(tags), plen, size, cid,
+			peek, qlen, vh.List(ds), vh.List(fs), errCode(perr)))
+		if extra < 0 && pc.Peek() == nil && pc.QLen() == 0 {
+			extra = pcExtra
+		}
+		if extra == 0 {
+			break
+		}
+		if extra > 0 {
+			extra--
+		}
+	}
+	desc["polls"] = polls
+	qs := make([]string, len(c.Q))
+	for i := range c.Q {
+		qs[i] = c.Q[i].coq()
+	}
+	term := fmt.Sprintf("CProxy (mkConf %d %d %d %s None) %d %s %s", F, NP, c.Own, vh.B(c.Inter), pcExtra, vh.List(qs), vh.List(obs))
+	nontrivial := false
+	for i := range c.Q {
+		if !c.Q[i].isNop() {
+			nontrivial = true
+		}
+	}
+	if len(qd) > 40 {
+		desc["queue"] = append(qd[:40:40], fmt.Sprintf("... %d more (regenerate with the seed)", len(qd)-40))
+	}
+	out.Add(term, c.Class, nontrivial && len(c.Q) >= 2, desc)
+	oracle(c, desc, mux, frags)
 }
 
 // ---------------------------------------------------------------- generators
@@ -881,6 +1035,82 @@ func main() {
 			c.Class = "random-abandoned"
 		}
 		run(c)
+	}
+
+	// ---- the proxy's queue for one of its clients (proxyClient.next), polled until drained + 2 polls
+	{
+		pc := func(class string, own int, inter bool, q ...gp) {
+			runPC(qcase{Own: own, Inter: inter, Reg: []int{own}, Q: q, Class: class})
+		}
+		big := lenForSize(F/2+1024, 0)
+		pc("pc-corpus", 1, false)
+		pc("pc-corpus", 1, true)
+		pc("pc-corpus", 1, false, mk(7, 1, 0, 10))
+		pc("pc-corpus", 1, true, mk(7, 0, 0, 10))
+		pc("pc-corpus", 1, false, nopOf(1))
+		pc("pc-corpus", 1, false, nopOf(1), nopOf(1))
+		pc("pc-corpus", 1, false, mk(7, 1, 0, 1), mk(8, 1, 0, 2))
+		pc("pc-corpus", 1, false, nopOf(1), mk(9, 1, 0, 100), nopOf(0))
+		pc("pc-corpus", 1, false, gp{ID: 9, Job: 77, Dev: 1, Tags: []uint32{5, 6}, Len: 3, Seed: 4}, mk(8, 1, 0, 2))
+		pc("pc-corpus", 1, false, gp{ID: 9, Job: 77, Dev: 1, Tags: []uint32{5, 6}, Len: 3, Seed: 4})
+		// the carried-over packet is the last one queued: it goes out through the lone-packet shortcut
+		pc("pc-carry-last", 1, false, mk(80, 1, 0, big), mk(81, 1, 0, big))
+		pc("pc-carry-last", 1, true, mk(80, 1, 0, big), mk(81, 1, 0, big))
+		pc("pc-carry-last", 1, false, mk(80, 0, 0, big), mk(81, 0, 0, big))
+		pc("pc-carry-last", 1, false, mk(7, 1, 0, 5), mk(80, 1, 0, big), mk(81, 1, 0, big))
+		pc("pc-carry-last", 1, false, mk(80, 1, 0, lenForSize(F, 0)), mk(81, 1, 0, 1))
+		pc("pc-carry-last", 1, false, mk(80, 1, 0, big), mk(81, 1, 0, big), nopOf(1))
+		pc("pc-carry-last", 1, false, mk(80, 1, 0, big), mk(81, 1, 0, big), mk(82, 1, 0, big))
+		// ... and is followed by more
+		pc("pc-carry-followed", 1, false, mk(80, 1, 0, big), mk(81, 1, 0, big), mk(82, 1, 0, 32))
+		pc("pc-carry-followed", 1, false, mk(80, 1, 0, big), mk(81, 1, 0, big), mk(82, 1, 0, 32), mk(83, 1, 0, big))
+		for _, n := range []int{NP - 1, NP, NP + 1, 2*NP + 1} {
+			q := make([]gp, n)
+			for i := range q {
+				if i%4 == 3 {
+					q[i] = nopOf(1)
+				} else {
+					q[i] = mk(uint8(7+i%200), i%2, 0, i%5)
+				}
+			}
+			pc("pc-count-budget", 1, false, q...)
+		}
+		npc := 110
+		if thorough {
+			npc = 1500
+		}
+		profiles := [][]string{{"0", "1", "1k"}, {"F/3", "F/2", "1k"}, {"F/2", "F-1", "F", "0"}, {"0", "1", "1k", "r", "r"}}
+		for it := 0; it < npc; it++ {
+			own := 1 + g.r.Intn(4)
+			prof := profiles[g.r.Intn(len(profiles))]
+			n := g.r.Intn(6)
+			switch g.r.Intn(4) {
+			case 0:
+				n = 2 + g.r.Intn(3)
+			case 1:
+				n = g.r.Intn(70)
+			}
+			if strings.HasPrefix(prof[0], "F") && n > 24 {
+				n = 24
+			}
+			pNop := []int{0, 10, 40}[g.r.Intn(3)]
+			var q []gp
+			for len(q) < n {
+				if g.r.Intn(100) < pNop {
+					p := g.nop(own, nil)
+					q = append(q, p)
+				} else if g.r.Intn(12) == 0 && len(q)+2 <= n {
+					q = append(q, g.fragRun(own, uint16(1+g.r.Intn(65535)), 1+g.r.Intn(2), []string{"1", "1k"})...)
+				} else {
+					p := g.dataPkt(own, nil, prof)
+					if g.r.Intn(5) == 0 {
+						p.Dev = 0
+					}
+					q = append(q, p)
+				}
+			}
+			runPC(qcase{Own: own, Inter: g.r.Intn(4) == 0, Reg: []int{own}, Q: q, Class: "pc-random-" + prof[0]})
+		}
 	}
 	out.Finish()
 }
